@@ -45,4 +45,40 @@ PROPS = {
         "oracle": (300, 3000),
         "rule": "all 256 first bytes x up to 12 bodies valid for the selected type (incl. empty); non-trivial = low nibble != 0",
     },
+    "C10": {
+        "suites": [("write", 3000, 60000), ("render", 1500, 20000)],
+        "oracle": (3000, 60000),
+        "rule": "packets of every type (C01 domain and malformed-but-constructible) x writers: accept, fail before writing, "
+                "accept k bytes for every k < frame length (frames <= 64 bytes exhaustively); String size; non-trivial = at least one setter call",
+    },
+    "C11": {
+        "suites": [("write", 3000, 60000), ("hist", 1500, 30000)],
+        "oracle": (2000, 40000),
+        "rule": "each packet encoded 33 times in process interleaved with random read-only operations, rebuilt from the same history, "
+                "and written by 4 fresh processes (different map hash seeds); accessor snapshot before/after; non-trivial = >= 2 setter calls",
+    },
+    "C12": {
+        "suites": [("hist", 3000, 60000)],
+        "oracle": (3000, 60000),
+        "rule": "all histories of length <= 3 (2 for CONNECT) over the flag-affecting setters with every value, plus random histories of 1-12 calls "
+                "from boundary-biased values; after every step all accessors vs an independent last-write-wins record; non-trivial = >= 2 calls",
+    },
+    "C17": {
+        "suites": [("hist", 3000, 60000), ("render", 1500, 20000)],
+        "oracle": (2000, 40000),
+        "rule": "Publish: topic x alias x QoS 0..4 x packet id x other fields (full product); Subscribe: 0-3 filters x 9 subscription ids around "
+                "the boundary x all 256 option bytes x empty/non-empty; built and decoded; all are non-trivial",
+    },
+    "C18": {
+        "suites": [("render", 3000, 40000)],
+        "oracle": (3000, 60000),
+        "rule": "CONNECT packets (random fields, will, properties) x pairs of equally long credentials, also coinciding with client id, "
+                "user property value, will payload or auth data; built and decoded; String and Dump compared byte for byte",
+    },
+    "C19": {
+        "suites": [("render", 3000, 40000)],
+        "oracle": (3000, 60000),
+        "rule": "zero values and constructor values of all 16 types, all 256 values of each rendered byte (hooks and through decoded packets), "
+                "setter histories, successful and failed decodes of hostile frames; String and Dump under recover and a watchdog",
+    },
 }
